@@ -10,13 +10,13 @@ prop = json.load(open(f'/verif/findings/{pid}/proposed_findings.json'))['finding
 byid = {e['id']: e for e in prop}
 for fid, how in mapping.items():
     e = byid[fid]
-    assert os.path.exists('/verif/' + e['witness']), e['witness']
+    assert not e.get('witness') or os.path.exists('/verif/' + e['witness']), e['witness']
     kf['findings'] = [x for x in kf['findings'] if x.get('id') != fid]
     kf['fixed'] = [x for x in kf['fixed'] if x.get('id') != fid]
     if how == 'open':
         e = dict(e); e['status'] = 'open'
         kf['findings'].append(e)
     else:
-        kf['fixed'].append(dict(id=fid, line=f"fixed: property={pid} {how} {e['what']}", property=pid, commit=how, witness=e['witness']))
+        kf['fixed'].append(dict(id=fid, line=f"fixed: property={pid} {how} {e['what']}", property=pid, commit=how, witness=e.get('witness')))
 json.dump(kf, open('/verif/known_findings.json', 'w'), indent=1)
 print('open:', [x['id'] for x in kf['findings'] if x['property'] == pid], 'fixed:', [x.get('id') for x in kf['fixed'] if x['property'] == pid])
